@@ -25,7 +25,7 @@ import (
 	"verif.local/harness/ev"
 )
 
-const rule = "per backend (11 single backends, in the thorough tier with 3 seeded histories each; the key/value-backed ones (blobpacked, diskpacked; thorough also encrypt, overlay, namespace) a second time over a real sqlite file whose batches and iterators own the store's one-slot gate (quick: only the operations that write or scan below); encrypt-long: 101 receives so that the background meta compaction runs and is faulted; 8/40 seeded compositions + 2/6 compositions around blobpacked{meta=sqlite} whose history packs a >=560 KiB file): one seeded history (22-40 ops: receive/fetch/subfetch/stat incl. batches of 25 and 60 refs/enumerate/remove/reopen) run fault-free to learn every operation's lower-layer calls, then one re-run on a fresh instance per (operation, lower call) with a single injected failure (error; error-after-effect for write calls and enumerations; truncate = partial effect then failure for enumerations/KV scans/readdir/file I/O, for fetched bodies (fail half way), and for batched lower stats/removes (half done), also inside compositions), plus seeded bursts of 2-5 consecutive errors; after the fault: rest of the history, retry of the faulted call, 14 probe operations, full audit, the store's own recovery (diskpacked.Reindex into a fresh index, blobpacked Fast+Full recovery, encrypt re-scan with an empty index, reopen) and a second audit; a watchdog firing counts only with goroutines waiting inside perkeep frames and after reproduction in a fresh process; per gated backend a repetition scenario (per op kind and per fault position first/middle/last lower call of the op: 3 x gate capacity failing calls in one process, each under a watchdog, then a healthy call); optional real-ENOSPC scenarios on a 1 MiB tmpfs (diskpacked packs, files temp files, diskpacked roll-over with exhausted inodes so that creating the next pack file fails). distinct = (backend, history op, op kind, lower-call kind+mode, lower-call index) where the fault was actually delivered"
+const rule = "per backend (11 single backends, in the thorough tier with 3 seeded histories each; the key/value-backed ones (blobpacked, diskpacked; thorough also encrypt, overlay, namespace) a second time over a real sqlite file whose batches and iterators own the store's one-slot gate (quick: only the operations that write or scan below); encrypt-long: 101 receives so that the background meta compaction runs and is faulted; blobpacked-mz: blobpacked with its zip size limit lowered to the file's largest chunk + 40 KiB so that the history's file becomes a pack of several zips that a fault interrupts between two zips (quick: only the lower calls of the packing operation are sites); 8/40 seeded compositions + 2/6 compositions around blobpacked{meta=sqlite} whose history packs a >=560 KiB file): one seeded history (22-40 ops: receive/fetch/subfetch/stat incl. batches of 25 and 60 refs/enumerate/remove/reopen) run fault-free to learn every operation's lower-layer calls, then one re-run on a fresh instance per (operation, lower call) with a single injected failure (error; error-after-effect for write calls and enumerations; truncate = partial effect then failure for enumerations/KV scans/readdir/file I/O, for fetched bodies (fail half way), and for batched lower stats/removes (half done), also inside compositions), plus seeded bursts of 2-5 consecutive errors; after the fault: rest of the history, retry of the faulted call, 14 probe operations, full audit, the store's own recovery (diskpacked.Reindex into a fresh index, blobpacked Fast+Full recovery, encrypt re-scan with an empty index, reopen) and a second audit; a watchdog firing counts only with goroutines waiting inside perkeep frames and after reproduction in a fresh process; after 3 hangs at sites of one operation kind a chain of child processes leaves out its remaining sites of that kind (sites_skipped_after_repeated_hangs); per gated backend a repetition scenario (per op kind and per fault position first/middle/last lower call of the op: 3 x gate capacity failing calls in one process, each under a watchdog, then a healthy call); optional real-ENOSPC scenarios on a 1 MiB tmpfs (diskpacked packs, files temp files, diskpacked roll-over with exhausted inodes so that creating the next pack file fails). distinct = (backend, history op, op kind, lower-call kind+mode, lower-call index) where the fault was actually delivered"
 
 func main() {
 	if m := os.Getenv("VERIF_CHILD"); m != "" {
@@ -190,6 +190,13 @@ func childEnv(mode, backend string, start, max int) []string {
 func (co *coordinator) enumChain(def *backendDef, limit time.Duration, k, n int) {
 	r := co.r
 	start, deaths, confirms := 0, 0, 0
+	// Cost bound for a regression that hangs at many sites: every hanging site waits for its
+	// watchdog.  After hangSkipAfter hangs at sites of one operation kind, this chain leaves out
+	// its remaining sites of that kind (counted as sites_skipped_after_repeated_hangs); a hang
+	// signature that already reproduced in a fresh process is not reproduced a second time.
+	hangsByKind := map[string]int{}
+	var skipKinds []string
+	confirmed := map[string]bool{}
 	slice := func(env []string) []string {
 		if n > 1 {
 			env = append(env, fmt.Sprintf("VERIF_C13_SLICE=%d/%d", k, n))
@@ -197,15 +204,34 @@ func (co *coordinator) enumChain(def *backendDef, limit time.Duration, k, n int)
 		return env
 	}
 	for round := 0; round < 2000; round++ {
-		out, code, timedOut := runChild(slice(childEnv("enum", def.Name, start, 0)), limit)
+		env := slice(childEnv("enum", def.Name, start, 0))
+		if len(skipKinds) > 0 {
+			env = append(env, "VERIF_C13_SKIPKINDS="+strings.Join(skipKinds, ","))
+		}
+		out, code, timedOut := runChild(env, limit)
 		p := parseChild(out)
 		var hangs []record
 		for _, rc := range p.recs {
 			hangs = append(hangs, co.absorb(rc)...)
 		}
 		for _, hv := range hangs {
+			r.Count("hang_reports", 1)
+			if hv.OpKind != "" {
+				hangsByKind[hv.OpKind]++
+				if hangsByKind[hv.OpKind] == hangSkipAfter {
+					skipKinds = append(skipKinds, hv.OpKind)
+					sort.Strings(skipKinds)
+					r.Note("sites_skipped_after_repeated_hangs", def.Name+":"+hv.OpKind)
+				}
+			}
 			// a watchdog firing is a verdict only if it reproduces in a fresh process (DESIGN 4.4)
-			if confirms >= 3 {
+			if confirmed[hv.Sig] {
+				// the same signature at another site of this chain: already a verdict, counted only
+				r.Note("violation_occurrences", hv.Sig)
+				r.Count("hangs_with_an_already_reproduced_signature", 1)
+				continue
+			}
+			if confirms >= 6 {
 				r.Inconclusive(fmt.Sprintf("%s: further hang at site %d not re-confirmed: %s", def.Name, hv.Site, hv.Sig))
 				continue
 			}
@@ -218,6 +244,7 @@ func (co *coordinator) enumChain(def *backendDef, limit time.Duration, k, n int)
 				}
 			}
 			if again {
+				confirmed[hv.Sig] = true
 				co.violation(hv.Sig, hv.What+" (reproduced in a fresh process)", hv.Replay)
 			} else {
 				r.Inconclusive(fmt.Sprintf("%s: watchdog fired at site %d (%s) but did not reproduce", def.Name, hv.Site, hv.Sig))
@@ -276,6 +303,10 @@ func (co *coordinator) enumChain(def *backendDef, limit time.Duration, k, n int)
 		start = p.lastSite + 1
 	}
 }
+
+// hangSkipAfter: after that many hangs at sites of one operation kind a chain of child processes
+// leaves out its remaining sites of that kind.
+const hangSkipAfter = 3
 
 func tail(s string, n int) string {
 	ls := strings.Split(strings.TrimRight(s, "\n"), "\n")
@@ -516,11 +547,12 @@ func run(r *ev.Run) {
 		r.Extra("process_deaths_by_backend", ks)
 	}
 	if only == "" {
-		r.Require("backends", "diskpacked", "files", "blobpacked", "encrypt", "replica", "shard", "cond", "overlay", "namespace", "proxycache", "union", "comp0", "comp5", "blobpacked-sql", "diskpacked-sql", "compS0", "compS1", "encrypt-long")
+		r.Require("backends", "diskpacked", "files", "blobpacked", "encrypt", "replica", "shard", "cond", "overlay", "namespace", "proxycache", "union", "comp0", "comp5", "blobpacked-sql", "diskpacked-sql", "compS0", "compS1", "encrypt-long", "blobpacked-mz")
 		r.Require("categories", "fault-during-diskpacked-pack-rollover", "fault-at-index-set-after-data-append", "fault-at-index-set-after-pack-rollover",
 			"fault-at-commitbatch-of-remove", "fault-in-batched-stat>20", "fault-in-batched-stat>50", "enum-source-closes-then-errors-late", "enum-source-errors-at-close",
 			"fault-over-sql-index", "fault-at-zip-upload-with-sql-index", "fault-in-sql-index-call", "fetched-body-fails-half-way",
-			"batched-lower-call-does-half-then-fails", "partial-scan-inside-composition", "fault-in-background-meta-compaction")
+			"batched-lower-call-does-half-then-fails", "partial-scan-inside-composition", "fault-in-background-meta-compaction",
+			"fault-between-zips-of-multi-zip-pack", "fault-at-upload-of-later-zip-of-multi-zip-pack", "full-rebuild-after-interrupted-multi-zip-pack")
 		r.Require("recoveries", "diskpacked.reindex", "blobpacked.fast", "blobpacked.full", "encrypt.rescan", "files.reopen")
 		r.Require("gate_scenarios", "files", "diskpacked", "encrypt", "blobpacked")
 		r.Require("outcomes", "error", "absorbed")
